@@ -291,6 +291,7 @@ type xref struct {
 
 // applyX: sub-commands in order until the first that cannot be executed.
 func (r *xref) applyX(x xcmdT) bool {
+	r.lastKind = 0
 	for _, c := range x.flat() {
 		if !r.apply(c) {
 			return false
@@ -308,7 +309,7 @@ func (r *xref) do(o opT) bool {
 		return r.applyX(o.x)
 	case oSet:
 		k := [2]int{int(o.p), int(o.a)}
-		if _, ok := r.banks[k]; !ok {
+		if r.lastKind = r.bankKind(k[0], k[1]); r.lastKind != 0 {
 			return false
 		}
 		r.banks[k] = append([]byte{}, o.v...)
@@ -316,6 +317,7 @@ func (r *xref) do(o opT) bool {
 	case oReset, oResetNoInit:
 		r.reset()
 		r.entries = nil
+		r.lastKind = 0
 		return true
 	}
 	panic("bad op")
@@ -411,10 +413,13 @@ func driveX(t *tpm.TPM, zero bool, ops []opT, fullAt []bool) *xRun {
 		case panicked:
 			class = 2
 		case err != nil:
-			class, ek, pmsg = 1, errKind(err.Error()), err.Error()
+			class, pmsg = 1, err.Error() // the text is only quoted in reports, never looked at
 		}
 		nOKBefore := len(ref.table)
 		refOK := ref.do(o)
+		if !refOK {
+			ek = ref.lastKind // the reference TPM's reason
+		}
 		run.okExtends += len(ref.table) - nOKBefore
 		switch o.kind {
 		case oApply, oSet:
@@ -470,6 +475,8 @@ func driveX(t *tpm.TPM, zero bool, ops []opT, fullAt []bool) *xRun {
 		// replay of the log on a new object
 		rep := "None"
 		var dummy *tpm.TPM
+		var nr *xref
+		nrOK := true
 		var dClass, dEk int
 		var dObs []getObs
 		if o.replay {
@@ -480,7 +487,17 @@ func driveX(t *tpm.TPM, zero bool, ops []opT, fullAt []bool) *xRun {
 			case dp:
 				dClass = 2
 			case derr != nil:
-				dClass, dEk = 1, errKind(derr.Error())
+				dClass = 1
+			}
+			// the logged commands applied in order to a new reference TPM, until the first that cannot be executed
+			nr = &xref{}
+			nr.reset()
+			nrOK = true
+			for _, e := range ref.entries {
+				if !nr.applyX(e.x) {
+					nrOK, dEk = false, nr.lastKind
+					break
+				}
 			}
 			var dg []string
 			dObs = make([]getObs, len(grid))
@@ -540,16 +557,6 @@ func driveX(t *tpm.TPM, zero bool, ops []opT, fullAt []bool) *xRun {
 			}
 		}
 		if bad == "" && o.replay {
-			// the logged commands applied in order to a new reference TPM, until the first that cannot be executed
-			nr := &xref{}
-			nr.reset()
-			nrOK := true
-			for _, e := range ref.entries {
-				if !nr.applyX(e.x) {
-					nrOK = false
-					break
-				}
-			}
 			// hashes the replay needs and the object's own history did not (a command refused there, executed here)
 			have := map[string]bool{}
 			for _, e := range ref.table {
